@@ -314,7 +314,7 @@ def select_paths(case_idx, length, succ, init, rng, mode, budget):
     every edge of the case's graph is covered or the budget is used."""
     paths = [[length], [1] * length]
     for p in range(1, length):
-        if mode == 'quick' and length > 26 and not (p <= 17 or p >= length - 2 or p % 4 == 0):
+        if mode == 'quick' and length > 20 and not (p <= 16 or p >= length - 1 or p % 5 == 0):
             continue
         paths.append([p, length - p])
     if length > 8:
@@ -365,7 +365,15 @@ def run(prop, tier, seed, replay=None):
     token = hashlib.sha1(('%d-%d-%f' % (ck.seed, os.getpid(), time.time())).encode()).hexdigest()[:5]
     cases = run_catalogue(rng, tier) + hs_catalogue(token, rng, tier)
     ck.log('catalogue: %d byte strings, %d bytes' % (len(cases), sum(len(cs['bytes']) for cs in cases)))
-    execute(ck, cases, token, rng, tier, listed)
+    try:
+        execute(ck, cases, token, rng, tier, listed)
+    finally:
+        import glob
+        for f in glob.glob('/dev/shm/v%s*' % token):      # safety net: share-memory files of this run (names carry its token)
+            try:
+                os.remove(f)
+            except OSError:
+                pass
     return ck.finish()
 
 
@@ -519,21 +527,17 @@ def digest(ck, r, jobs, listed):
             continue
         seen.add(v['name'])
         ck.violation('%s: case %s cuts %s read %d: %s' % (v['kind'], v['name'], v['cuts'], v['step'], v['detail']),
-                     {'kind': 'case', 'job': jobs[v['case']] | {'behaviours': [jobs[v['case']]['behaviours'][v['beh']]] if v['beh'] >= 0 else
-                                                              jobs[v['case']]['behaviours'][:1]},
-                      'token': job_token(jobs), 'executor': v['executor'], 'detail': v['detail']})
+                     {'kind': 'case', 'job': dict(jobs[v['case']], behaviours=[jobs[v['case']]['behaviours'][v['beh']]] if v['beh'] >= 0 else
+                                                  jobs[v['case']]['behaviours']),
+                      'executor': v['executor'], 'detail': v['detail']})
     if r.get('errors'):
         ck.inconc('harness errors: ' + '; '.join(r['errors'][:5]))
-
-
-def job_token(jobs):
-    return ''
 
 
 def do_replay(ck, path, listed):
     rep = json.load(open(path))
     j = rep['job']
-    job = {'token': rep.get('token') or 'rp%03d' % (os.getpid() % 1000), 'listed': listed, 'jobs': [dict(j, case=0)],
+    job = {'token': 'replay', 'listed': listed, 'jobs': [dict(j, case=0, child=rep.get('executor') == 'child')],
            'children': 4 if rep.get('executor') == 'child' else 0, 'seed': ck.seed, 'replay': True}
     g = gorun.run_harness('^TestVS_EventCodec$', HARNESS, None, inputs={'job': job}, timeout=600)
     if g.result is None:
